@@ -501,6 +501,75 @@ func reactingApplication(c *vk.Ctx, role rig.Role, variant string, idx int) {
 	}
 }
 
+// stopFromCallback: the application stops the session from inside one of its own incoming-message callbacks (it
+// reacts to a business message by shutting down), i.e. Stop runs on the handler's processing loop. The peer answers
+// the Logout at once: the context is cancelled when that answer arrives — not only when the close timeout expires —
+// and the logout event is signalled.
+func stopFromCallback(c *vk.Ctx, role rig.Role, idx int) {
+	closeTO := 3 * time.Second
+	desc := fmt.Sprintf("%s: Stop called from an application callback for an inbound message (closeTimeout %v), the peer answers the Logout at once", role, closeTO)
+	replay := map[string]interface{}{"scenario": desc, "seed": c.Seed}
+	var appLogout int32
+	r, err := rig.NewStepRig(rig.StepCfg{Role: role, HeartBtInt: 30, Limits: &session.IntLimits{Min: 5, Max: 60}, CloseTimeout: closeTO, SentinelBarrier: true,
+		AfterRun: func(h *simplefixgo.DefaultHandler, s *session.Session) {
+			s.OnChangeState(utils.EventLogout, func() bool { atomic.AddInt32(&appLogout, 1); return true })
+			h.HandleIncoming("V", func([]byte) bool {
+				_ = s.Stop()
+				return true
+			})
+		}})
+	if err != nil {
+		c.Inconclusive("rig: " + err.Error())
+		return
+	}
+	defer r.Close()
+	p := rig.NewPeer()
+	if res := r.Inbound(p.Logon(30, "0")); !res.Logged {
+		c.Inconclusive("no logon: " + desc)
+		return
+	}
+	c.Eval(vk.Hash64([]byte(desc), []byte{byte(idx)}), true)
+	c.Count("stops_called_from_an_incoming_callback", 1)
+	done := r.S.Context().Done()
+	go r.H.ServeIncoming(p.App("shut down"))
+	// the peer answers as soon as it sees the Logout
+	deadline := time.Now().Add(2 * time.Second)
+	seen := false
+	for time.Now().Before(deadline) && !seen {
+		seen = count(r.AllOuts(), "5") > 0
+		if !seen {
+			time.Sleep(2 * time.Millisecond)
+		}
+	}
+	if !seen {
+		if time.Duration(atomic.LoadInt64(&maxJitter)) > 100*time.Millisecond {
+			c.Inconclusive("no Logout within 2 s (late scheduler): " + desc)
+			return
+		}
+		c.Violate("C15/stop-did-not-send-one-logout/called-from-an-incoming-callback/"+role.String(), desc+": no Logout was sent within 2 s", replay)
+		return
+	}
+	tAnswer := time.Now()
+	go r.H.ServeIncoming(p.Logout())
+	select {
+	case <-done:
+	case <-time.After(closeTO + 2*time.Second):
+	}
+	took := time.Since(tAnswer)
+	if jit := time.Duration(atomic.LoadInt64(&maxJitter)); jit > 100*time.Millisecond {
+		c.Inconclusive(fmt.Sprintf("late scheduler (%v): %s", jit, desc))
+		return
+	}
+	if took > time.Second {
+		c.Violate("C15/stop-not-ended-by-answer/called-from-an-incoming-callback/"+role.String(), fmt.Sprintf("%s: the context was cancelled %v after the peer's answer was handed to the handler (the answer ends a Stop at once; %v is the close timeout)", desc, took.Round(10*time.Millisecond), closeTO), replay)
+		return
+	}
+	time.Sleep(50 * time.Millisecond)
+	if n := atomic.LoadInt32(&appLogout); n != 1 {
+		c.Violate("C15/logout-event-not-signalled-to-application/after-stop/called-from-an-incoming-callback/"+role.String(), fmt.Sprintf("%s: the application's EventLogout handler ran %d times", desc, n), replay)
+	}
+}
+
 // flakyCounter is the bundled store whose next SetSeqNum for the incoming side fails once when armed (a transient
 // fault of the application's counter store).
 type flakyCounter struct {
@@ -635,6 +704,15 @@ func main() {
 				defer wg.Done()
 				storeFaultAtLogout(c, role, variant, i)
 			}(i, role, variant)
+		}
+	}
+	for i := 0; i < 4; i++ {
+		for _, role := range []rig.Role{rig.Acceptor, rig.Initiator} {
+			wg.Add(1)
+			go func(i int, role rig.Role) {
+				defer wg.Done()
+				stopFromCallback(c, role, i)
+			}(i, role)
 		}
 	}
 	for i, variant := range []string{"sends-an-alert", "stops-the-session", "sends-an-alert", "stops-the-session"} {
